@@ -132,14 +132,8 @@ def _subsets(names, tier):
             yield [m for m in names if m != n]
 
 
-def h_call(ctx, cmd, set_name, given):
-    from pyscsi.pyscsi.scsi import SCSI
-    spec = L.CDB[cmd]
-    rec0 = _Dev(ctx, "-", None)
-    s = SCSI(rec0.dev, 512)
-    rec = _Dev(ctx, cmd, K.get_set(set_name))
-    s.device = rec.dev
-    method = getattr(s, spec["facade"])
+def _facade_args(ctx, cmd, spec, method, given, rec=None):
+    """(arguments for the facade call, expected CDB field values): required and `given` optional arguments symbolic"""
     req, sigopt, has_kw = D.signature_args(method)
     fa, expect = {}, {}
     a0, e0 = K.concrete_args(spec)
@@ -167,7 +161,8 @@ def h_call(ctx, cmd, set_name, given):
             # a documented argument this harness has no typed value for: pass a small integer
             fa[name] = ctx.int(name, 3)
     if spec["data"][0] == "in" and len(spec["data"]) > 2 and spec["data"][2] in given:
-        rec.write = False
+        if rec is not None:
+            rec.write = False
         ctx.assume(fa[spec["data"][2]] >= 4)  # room for at least the response's length header
     if cmd.startswith("ATA"):
         ctx.assume(fa["t_length"] != 3)
@@ -184,6 +179,18 @@ def h_call(ctx, cmd, set_name, given):
         ctx.assume(fa["alloclen"] >= 24)
     if cmd == "INQUIRY" and "evpd" in fa:
         fa["evpd"] = expect["evpd"] = 0
+    return fa, expect
+
+
+def h_call(ctx, cmd, set_name, given):
+    from pyscsi.pyscsi.scsi import SCSI
+    spec = L.CDB[cmd]
+    rec0 = _Dev(ctx, "-", None)
+    s = SCSI(rec0.dev, 512)
+    rec = _Dev(ctx, cmd, K.get_set(set_name))
+    s.device = rec.dev
+    method = getattr(s, spec["facade"])
+    fa, expect = _facade_args(ctx, cmd, spec, method, given, rec)
     n0 = len(rec.seen)
     st, c = ctx.attempt(method, **fa)
     if st == "exc":
@@ -218,6 +225,110 @@ def h_call(ctx, cmd, set_name, given):
         ctx.check("the data-in buffer still holds the device's bytes", c.datain == rec.snapshot)
 
 
+class _Boom(Exception):
+    pass
+
+
+_FAILURES = [TypeError("device failed (stub)"), ValueError("device failed (stub)"), OSError(5, "I/O error (stub)"),
+             AttributeError("device failed (stub)"), KeyError("device failed (stub)"), RuntimeError("device failed (stub)"),
+             _Boom("device failed (stub)")]
+
+
+def h_fail(ctx, cmd, set_name):
+    """a device whose execute raises, whatever the exception: the command was still handed over exactly once (no
+    silent second attempt) and the caller learns of the failure"""
+    from pyscsi.pyscsi.scsi import SCSI
+    spec = L.CDB[cmd]
+    for exc in _FAILURES:
+        rec0 = _Dev(ctx, "-", None)
+        s = SCSI(rec0.dev, 512)
+        rec = _Dev(ctx, cmd, K.get_set(set_name))
+        rec.write = False
+        orig = rec.dev.on_execute
+
+        def boom(dev, c, exc=exc, orig=orig):
+            orig(dev, c)
+            raise exc
+        rec.dev.on_execute = boom
+        s.device = rec.dev
+        method = getattr(s, spec["facade"])
+        fa, expect = _facade_args(ctx, cmd, spec, method, [], rec)
+        st, r = ctx.attempt(method, **fa)
+        tag = type(exc).__name__
+        ctx.check("device raises %s: exactly one command handed to the device" % tag, len(rec.seen) == ctx.oracle(1))
+        ctx.check("device raises %s: the caller sees the failure" % tag, st == "exc" and r is exc, repr(r)[:80])
+
+
+class _Responder:
+    """scenario for the stub bindings: leaves a response in the buffer the binding was given"""
+    def __init__(self, ctx, cmd):
+        self.ctx, self.cmd, self.snapshot, self.buf = ctx, cmd, None, None
+
+    def _fill(self, datain):
+        self.buf = datain
+        if getattr(datain, "symlen", None) is not None:
+            return
+        try:
+            n = len(datain)
+        except TypeError:
+            return
+        r = _resp(self.ctx, self.cmd, n)[:n]
+        if r:
+            datain[0:len(r)] = r
+        self.snapshot = datain[:] if n else None
+
+    def sgio(self, env, call):
+        self._fill(call.datain)
+        return 0
+
+    def iscsi(self, env, task):
+        task.status = 0
+        self._fill(task.datain)
+
+
+def h_transport(ctx, cmd, set_name, transport, given):
+    """the same, through the library's own device classes over the stub bindings: one call of the binding, with the
+    very cdb and buffers of the command the caller gets back, and the result decoded from what the binding left"""
+    from stubs import env
+    sd, idv = env.install()
+    from pyscsi.pyscsi.scsi import SCSI
+    spec = L.CDB[cmd]
+    sc = _Responder(ctx, cmd)
+    env.ENV.reset(None)
+    dev = sd.SCSIDevice("/dev/sg0") if transport == "sgio" else idv.ISCSIDevice("iscsi://host/target/0", "iqn.test")
+    rec0 = _Dev(ctx, "-", None)
+    s = SCSI(rec0.dev, 512)
+    dev.opcodes = K.get_set(set_name)
+    s.device = dev
+    env.ENV.reset(sc)
+    if transport == "iscsi":
+        env.ENV.iscsi_tasks[:] = []
+    method = getattr(s, spec["facade"])
+    fa, expect = _facade_args(ctx, cmd, spec, method, given, None)
+    st, c = ctx.attempt(method, **fa)
+    if st == "exc":
+        raise c
+    calls = env.ENV.sgio_calls if transport == "sgio" else env.ENV.iscsi_tasks
+    ctx.check("%s: exactly one command handed to the binding" % transport, len(calls) == ctx.oracle(1))
+    if not calls:
+        return
+    t = calls[-1]
+    ctx.check("%s: the binding saw the very cdb / dataout / datain objects of the returned command" % transport,
+              t.cdb is c.cdb and t.dataout is c.dataout and t.datain is c.datain)
+    ctx.check("%s: operation code is the one T10 assigns to the command" % transport, c.cdb[0] == ctx.oracle(spec["opcode"]))
+    dec = L.decode_cdb(spec, c.cdb)
+    for name in spec["fields"]:
+        if name in expect:
+            ctx.check("%s: argument '%s' reaches the CDB" % (transport, name), dec[name] == ctx.oracle(expect[name]))
+    cls = K.get_class(spec)
+    if hasattr(cls, "unmarshall_datain") and spec["data"][0] == "in" and sc.snapshot is not None \
+            and cmd not in ("READ(10)", "READ(12)", "READ(16)", "READ CD"):
+        kw = {"evpd": 0} if cmd == "INQUIRY" else {}
+        want = cls.unmarshall_datain(sc.snapshot, **kw)
+        ctx.check("%s: result is the decode of the bytes the binding left in the buffer" % transport,
+                  deq(c.result, ctx.oracle_struct(want)))
+
+
 def h_lookup(ctx, cmd, set_name):
     """the facade finds the command in every command set that defines it"""
     from pyscsi.pyscsi.scsi import SCSI
@@ -249,6 +360,11 @@ def obligations(tier):
             obs.append(Ob("lookup/%s/%s" % (cmd, st), MOD, "h_lookup", {"cmd": cmd, "set_name": st}, canary=True))
             if i > 0 and tier == "quick":
                 continue
+            obs.append(Ob("fail/%s/%s" % (cmd, st), MOD, "h_fail", {"cmd": cmd, "set_name": st}))
+            for tr in ("sgio", "iscsi"):
+                for sub in ([], list(opt)):
+                    obs.append(Ob("transport/%s/%s/%s/given=%s" % (tr, cmd, st, ",".join(sub) or "-"), MOD, "h_transport",
+                                  {"cmd": cmd, "set_name": st, "transport": tr, "given": sub}))
             for sub in _subsets(opt, tier):
                 obs.append(Ob("call/%s/%s/given=%s" % (cmd, st, ",".join(sub) or "-"), MOD, "h_call",
                               {"cmd": cmd, "set_name": st, "given": sub}))
